@@ -83,7 +83,7 @@ theorem c07_index_section_padded {ms : List Mesh} {l : MeshLod} (h : RowOK ms l)
 disjoint mesh ranges: running sums of count × stride (pairwise disjoint ranges inside the LOD's
 vertex section: `StreamsUpTo.ordered`, `HeaderOK.stream_in_section`) -/
 theorem c07_stream_offsets (es : List Edit) (m m' : MDL) (h0 : Inv m)
-    (h : es.foldlM Mdl.applyEdit m = .ok m') (i : Nat) (hi : i < m'.fileHeader.lodCount.toNat) :
+    (h : es.foldlM Mdl.applyEdit m = .ok m') (i : Nat) (hi : i < m'.lods.length) :
     StreamsOK m'.modelData.meshes (lodAt m'.modelData.lods i) :=
   history_streams es m m' h0 h i hi
 
@@ -348,12 +348,13 @@ against `src/model.rs`:
 | `MeshLod.indexDataOffset`, `edgeGeometryDataOffset`, `vertexBufferSize`, `indexBufferSize` | echoed | recomputed |
 | `FileHeader.stackSize`, `runtimeSize` | echoed | recomputed |
 | `FileHeader.vertexOffsets`, `vertexBufferSize`, `indexBufferSize` | echoed **and used for the final length**: the buffer is zero-extended to `max (offset + size)` (`declaredEnd`) | recomputed (parsed LODs only) |
-| `FileHeader.lodCount` | echoed | **used** as the bound of the first loop (mesh start indices, stream offsets); never recomputed |
+| `FileHeader.lodCount` | echoed | not used, not recomputed (fix C07-06; before it bounded the first loop: mesh start indices, stream offsets) |
 
 So no data is *placed* by an unread copy (the seeded change `C07-r6m2`, index seek through
 `MeshLod.indexDataOffset`, is exactly a violation of `c07_writer_reads_same`), the unedited round
-trip can only differ in trailing zeros, and the edited one is sound exactly when the file header's
-LOD count is not smaller than the real one and not larger than 3 — see the witness at the end. -/
+trip can only differ in trailing zeros, and since fix C07-06 (`update_headers` loops over the parsed
+LODs, as `from_existing` and its own four copy loops do) no edit looks at an unread copy either; the
+stale file-header LOD count is merely echoed into the written file, where the reader ignores it. -/
 
 /-- **The geometry pass of the writer reads of the two header records what the reader reads, and
 nothing else**: for any two pairs of records that agree on `ReadsSame` (`FileHeader.indexOffsets`;
@@ -502,22 +503,27 @@ example :
         MDL.view).toOption = view canonicalSample := by
   decide +kernel
 
-/-- **The same after edits.**  `a` well-formed and canonical, `ρ` any replacement of the unread
-copies that keeps the file header's LOD count (`hlc`); history, side conditions and conclusion as in
-`c07_edit_then_parse_partial`, with the session starting from `encodeMdlR a ρ` instead of
-`encodeMdl a`: for every outcome `mE` of the edit calls that returns, `write_to_buffer mE` returns a
-buffer whose re-parse reports exactly `view a'`, with `mE`'s `file_header` and `model_data`.  Stale
-stored stack / runtime sizes, offsets and buffer sizes in either table are all recomputed by the
-`update_headers` call every edit ends with (seeded change `C07-r7m2`: sizes recomputed only when a
-shape table changed).  The header flags are all ok when moreover the size slots `ρ` stores for the
-LODs **not in use** are 0: `update_headers` never rewrites the file-header slots of unparsed LODs.
+/-- **The same after edits — for every `ρ`.**  `a` well-formed and canonical, `ρ` **any** replacement
+of the unread copies; history, side conditions and conclusion as in `c07_edit_then_parse_partial`,
+with the session starting from `encodeMdlR a ρ` instead of `encodeMdl a`: for every outcome `mE` of
+the edit calls that returns, `write_to_buffer mE` returns a buffer whose re-parse reports exactly
+`view a'`, with `mE`'s `file_header` and `model_data`.  Stale stored stack / runtime sizes, offsets
+and buffer sizes in either table are all recomputed by the `update_headers` call every edit ends
+with (seeded change `C07-r7m2`: sizes recomputed only when a shape table changed); the stored
+file-header LOD count is read by nobody (fix C07-06) and echoed into the written file
+(`m1.fileHeader = mE.fileHeader`, whose `lodCount` is still `ρ`'s).  The header flags are all ok when
+moreover the size slots `ρ` stores for the LODs **not in use** are 0: `update_headers` never rewrites
+the file-header slots of unparsed LODs.
 
-`hlc` cannot be dropped — `c07_edit_redundant_lodcount_witness`, recorded finding
-`c07.file-lod-count`: `update_headers` bounds its first loop by `file_header.lod_count`, the reader by
-`model_data.header.lod_count`.  `_partial` otherwise as `c07_edit_then_parse_partial`. -/
+Before fix C07-06 this needed `ρ.fileLodCount a.lodCount = a.lodCount` and was false without:
+`update_headers` bounded its first loop by `file_header.lod_count` while the reader loops over
+`model_data.header.lod_count` — a stored count below the real one left stale mesh offsets behind
+(the written file re-parsed to other vertices), a count above 3 panicked (fixed defect
+`file-lod-count`, witnesses `corpus/C07/fx-06-file-lod-count*.case`, found while proving this theorem).
+Proof: the abstraction relation `Rep` of the edit route forgets every field `ρ` replaces
+(`rep_initialR`).  `_partial` as `c07_edit_then_parse_partial`. -/
 theorem c07_edit_redundant_partial (a : AbstractModel) (h : WF a = true) (hcan : Canonical a = true)
-    (ρ : Redundant) (hlc : ρ.fileLodCount a.lodCount = a.lodCount)
-    (v0 : View) (hv0 : view a = some v0)
+    (ρ : Redundant) (v0 : View) (hv0 : view a = some v0)
     (es : List AEdit) (hne : es ≠ []) (hes : editsOk2 a es = true)
     (a' : AbstractModel) (ha' : applyEdits a es = some a')
     (ces : List Edit) (hces : cedits a es = some ces)
@@ -532,12 +538,12 @@ theorem c07_edit_redundant_partial (a : AbstractModel) (h : WF a = true) (hcan :
             headerFlags m1.fileHeader buf.length m1.lods = HeaderFlags.allOk) := by
   refine ⟨parsedR a ρ v0, parse_encodeR a h (canonical_noWeightsByte4 a hcan) ρ v0 hv0, fun mE hE => ?_⟩
   obtain ⟨buf, m1, h1, h2, h3, h4, h5, h6⟩ :=
-    edit_then_parseR a h hcan ρ hlc v0 hv0 es hne hes a' ha' ces hces h' hlen' hcan' hne' v hv mE hE
+    edit_then_parseR a h hcan ρ v0 hv0 es hne hes a' ha' ces hces h' hlen' hcan' hne' v hv mE hE
   exact ⟨buf, m1, h1, h2, h5, h3, h4, h6⟩
 
 /-- … and under `editsFit` the edit calls on the model parsed from `encodeMdlR a ρ` return -/
 theorem c07_edit_redundant_total_partial (a : AbstractModel) (h : WF a = true)
-    (hcan : Canonical a = true) (ρ : Redundant) (hlc : ρ.fileLodCount a.lodCount = a.lodCount)
+    (hcan : Canonical a = true) (ρ : Redundant)
     (v0 : View) (hv0 : view a = some v0)
     (es : List AEdit) (hne : es ≠ []) (hes : editsOk2 a es = true) (hfit : editsFit a es = true)
     (a' : AbstractModel) (ha' : applyEdits a es = some a')
@@ -550,27 +556,27 @@ theorem c07_edit_redundant_total_partial (a : AbstractModel) (h : WF a = true)
       m1.fileHeader = mE.fileHeader ∧ m1.modelData = mE.modelData ∧
       (UnusedEmpty a.lodCount.toNat (ρ.fh (fileHeader a)) →
         headerFlags m1.fileHeader buf.length m1.lods = HeaderFlags.allOk) := by
-  obtain ⟨mE, hE⟩ := edits_return_initialR a h hcan ρ hlc v0 hv0 es hes hfit a' ha' ces hces
+  obtain ⟨mE, hE⟩ := edits_return_initialR a h hcan ρ v0 hv0 es hes hfit a' ha' ces hces
   obtain ⟨buf, m1, h1, h2, h3, h4, h5, h6⟩ :=
-    edit_then_parseR a h hcan ρ hlc v0 hv0 es hne hes a' ha' ces hces h' hlen' hcan' hne' v hv mE hE
+    edit_then_parseR a h hcan ρ v0 hv0 es hne hes a' ha' ces hces h' hlen' hcan' hne' v hv mE hE
   exact ⟨parsedR a ρ v0, mE, buf, m1, parse_encodeR a h (canonical_noWeightsByte4 a hcan) ρ v0 hv0,
     hE, h1, h2, h5, h3, h4, h6⟩
 
 /-- stale copies for an edit session on `shapeSample`: every unread `u32` copy of the LOD in use
 `0xDEADBEEF` (stack / runtime size, all LOD-table copies, slot 0 of the file-header arrays), the
-slots of the two unused LODs 0, the file header's LOD count kept -/
+slots of the two unused LODs 0, the file header's LOD count 0 (one LOD is in use) -/
 def staleRedundant : Redundant :=
-  { Redundant.const 0xDEADBEEF 1 with
+  { Redundant.const 0xDEADBEEF 0 with
     vertexOffsets := fun _ => ⟨0xDEADBEEF, 0, 0⟩
     vertexBufferSize := fun _ => ⟨0xDEADBEEF, 0, 0⟩
     indexBufferSize := fun _ => ⟨0xDEADBEEF, 0, 0⟩ }
 
 /-- non-vacuity of `c07_edit_redundant_partial` / `_total_partial`: the hypotheses of
-`c07_edit_then_parse_total_partial` on `shapeSample` / `sampleEdits` (see there), `hlc`, the
-unused-slot condition of the flags, and the edit calls on the model parsed from the perturbed file
+`c07_edit_then_parse_total_partial` on `shapeSample` / `sampleEdits` (see there), the stored
+file-header LOD count differs from the real one, the unused-slot condition of the flags, and the edit calls on the model parsed from the perturbed file
 return -/
 example :
-    staleRedundant.fileLodCount shapeSample.lodCount = shapeSample.lodCount ∧
+    (staleRedundant.fh (fileHeader shapeSample)).lodCount ≠ (fileHeader shapeSample).lodCount ∧
     UnusedEmpty shapeSample.lodCount.toNat (staleRedundant.fh (fileHeader shapeSample)) ∧
     (match view shapeSample, applyEdits shapeSample sampleEdits, cedits shapeSample sampleEdits with
      | some v0, some a', some ces =>
@@ -585,41 +591,5 @@ example :
     have : shapeSample.lodCount.toNat = 1 := by decide +kernel
     omega
   rcases hi with rfl | rfl <;> decide +kernel
-
-/-- the file header's LOD count replaced by the constant `c`, every other copy consistent -/
-def lodCountRedundant (c : UInt8) : Redundant := { Redundant.id with fileLodCount := fun _ => c }
-
-/-- parse `shapeSample` stored with `FileHeader.lodCount = c`, replace the mesh's 2 vertices by 3
-(the second edit of `sampleEdits`), write, re-parse: `some (some b)` — everything returned, `b` =
-"the re-parsed view is the view of the edited model"; `some none` — the edit call panicked -/
-def lodCountRun (c : UInt8) : Option (Option Bool) :=
-  let es : List AEdit := (sampleEdits.drop 1).take 1
-  match fromExisting (encodeMdlR shapeSample (lodCountRedundant c)), cedits shapeSample es,
-      applyEdits shapeSample es with
-  | .ok m0, some ces, some a' =>
-    match ces.foldlM Mdl.applyEdit m0 with
-    | .ok mE =>
-      match writeToBuffer mE with
-      | .ok buf =>
-        match fromExisting buf with
-        | .ok m1 => some (some (decide (some m1.view = view a')))
-        | .error _ => none
-      | .error _ => none
-    | .error _ => some none
-  | _, _, _ => none
-
-/-- **`hlc` is necessary — recorded finding `c07.file-lod-count`.**  `shapeSample` (one LOD in use,
-two vertex streams) stored with `FileHeader.lodCount = 0` parses to the same model as the consistent
-file (`c06_parse_redundant_partial`); one `replace_vertices` call (2 → 3 vertices, the second edit of
-`sampleEdits`) returns, `write_to_buffer` returns, the written file re-parses — to a view that is
-**not** the view of the edited model: `update_headers` ran its first loop `0` times, the second
-stream keeps its stale offset `2·16` and now overlaps the first.  With `FileHeader.lodCount = 4` the
-same call panics (`model_data.lods[3]`, three rows).  With 2 or 3 it is harmless (the extra LODs of
-a canonical model are empty: `lodCountRun 1`, `2`, `3` evaluate to `some (some true)`; not part of the
-kernel-checked statement for time).  Same behaviour in the real code (`corpus/C07/kf-file-lod-count*.case`). -/
-theorem c07_edit_redundant_lodcount_witness :
-    lodCountRun 0 = some (some false) ∧ lodCountRun 4 = some none ∧
-    lodCountRun 239 = some none := by
-  decide +kernel
 
 end Physis.C07
